@@ -11,7 +11,8 @@ Local Open Scope N_scope.
 
 (* adding a quad changes the graph it names and no other; a Graph object
    backed by another store given as the graph is merged into the graph of its
-   name on the way (ConjunctiveGraph._graph copies it) *)
+   name on the way (ConjunctiveGraph._graph(c, copy=True) copies it: add, addN
+   and Dataset.graph only, since the "fix:" commit for F19) *)
 Theorem C02_add_isolated : forall d t a g t',
   holds (cg_add d t (CQuad (Some a))) g t' <->
   holds d g t' \/ (g = arg_name a /\ (t' = t \/ In t' (arg_content a))).
@@ -62,17 +63,18 @@ Proof.
 Qed.
 Print Assumptions C02_shared_triple_survives.
 
-(* a read restricted to a graph (4th component or context=, identifier or
-   same-store Graph object) answers from that graph and from nothing else,
+(* a read restricted to a graph (4th component or context=; identifier,
+   same-store Graph object or Graph object of another store, which merely names
+   the graph) answers from that graph and from nothing else,
    whatever the state - in particular nothing for an empty or unknown graph.
    With default_union the default graph IS the merged view, hence the side
    condition. *)
 Theorem C02_no_fallback : forall d p ca kw du g,
-  ca_foreign ca = false -> no_foreign kw = true -> eff_graph ca kw = Some g -> (du = false \/ g <> 0) ->
+  eff_graph ca kw = Some g -> (du = false \/ g <> 0) ->
   (forall t, In t (snd (cg_triples d p ca kw du)) <-> holds d g t /\ matches p t = true)
   /\ ((forall t, ~ holds d g t) -> snd (cg_triples d p ca kw du) = []).
 Proof.
-  intros d p ca kw du g H1 H2 H3 H4. split.
+  intros d p ca kw du g H3 H4. split.
   - now apply no_fallback.
   - now apply no_fallback_empty.
 Qed.
@@ -80,7 +82,7 @@ Print Assumptions C02_no_fallback.
 
 (* quad membership: (t, g) in ds  iff  t is in graph g *)
 Theorem C02_contains_exact : forall d t a du,
-  foreign a = false -> (du = false \/ arg_name a <> 0) ->
+  (du = false \/ arg_name a <> 0) ->
   (snd (cg_contains d (pat_of t) (CQuad (Some a)) du) = true <-> holds d (arg_name a) t).
 Proof. exact contains_exact. Qed.
 Print Assumptions C02_contains_exact.
@@ -93,7 +95,7 @@ Print Assumptions C02_hist_context_or_c_refuted.
 
 (* ---- all views describe the same mapping, over every history ---- *)
 
-(* After every operation of every well-formed history, outside the one
+(* After every operation of every history, outside the one
    known-finding region (kf c = 0: no restricted quads() is asked while a
    matching triple is shared with another graph - F17), each read's
    answer and the whole snapshot (quads(), graphs(), every Graph(store, name)
@@ -102,20 +104,20 @@ Print Assumptions C02_hist_context_or_c_refuted.
    mapping graph name -> triple set with its set of known names, evolved by
    the specification's set operations.  This is the checker the correspondence
    run evaluates on rdflib's answers. *)
-Theorem C02_views_agree_partial : forall c, wf c -> kf c = 0 -> spec_ok c (model_obs c) = true.
+Theorem C02_views_agree_partial : forall c, kf c = 0 -> spec_ok c (model_obs c) = true.
 Proof. exact spec_ok_model. Qed.
 Print Assumptions C02_views_agree_partial.
 
 (* the same from any related pair of states, any front-end kind *)
 Theorem C02_views_agree_from_partial : forall c ops d sp,
-  R d sp -> is_ds d = c_ds c -> forallb op_wf ops = true -> leak_run sp ops = false ->
+  R d sp -> is_ds d = c_ds c -> leak_run sp ops = false ->
   spec_run c sp ops (run c d ops) = true.
 Proof. exact spec_run_model. Qed.
 Print Assumptions C02_views_agree_from_partial.
 
 (* without the trigger hypothesis the statement is false: F17 (kept as a known
    finding: test_aggregate_graphs.py::test_aggregate2 pins the behaviour) *)
-Theorem C02_quads_restricted_refuted : exists c, wf c /\ kf c = 1 /\ spec_ok c (model_obs c) = false.
+Theorem C02_quads_restricted_refuted : exists c, kf c = 1 /\ spec_ok c (model_obs c) = false.
 Proof. exact quads_restricted_refuted. Qed.
 Print Assumptions C02_quads_restricted_refuted.
 
@@ -126,6 +128,19 @@ Theorem C02_hist_spoc_none_refuted :
     In t (snd (cg_triples d pall CTriple None true)) /\ forall g, ~ holds d g t.
 Proof. exact hist_spoc_none_refuted. Qed.
 Print Assumptions C02_hist_spoc_none_refuted.
+
+(* a read never writes a quad, whatever graph argument it is handed; the
+   _graph of before the "fix:" commit for F19 copied a foreign Graph in *)
+Theorem C02_triples_no_write : forall d p ca kw du,
+  quads (st (fst (cg_triples d p ca kw du))) = quads (st d).
+Proof. exact triples_no_write. Qed.
+Print Assumptions C02_triples_no_write.
+
+Theorem C02_hist_graph_copies_refuted :
+  exists d c ts, quads (st (fst (cg_graph_hist d (Some (GForeign c ts))))) <> quads (st d)
+                 /\ quads (st (fst (cg_graph d (Some (GForeign c ts)) false))) = quads (st d).
+Proof. exact hist_graph_copies_refuted. Qed.
+Print Assumptions C02_hist_graph_copies_refuted.
 
 (* ---- what the boolean checker means ---- *)
 Theorem C02_snapshot_reading : forall c sp s,
@@ -169,11 +184,13 @@ Example C02_nonvacuous :
                         ORemove (Some 1, None, None) (CQuad (Some (GId 1)));
                         OTriples pall CTriple (Some (GView 1)) true;
                         OQuads pall (CQuad (Some (GId 3)));
-                        ORemoveGraph (Some (GView 3)); OContains (pat_of (1, 3, 5)) (CQuad (Some (GId 3))) false] |} in
-  wf c /\ kf c = 0 /\ length (model_obs c) = 10%nat
+                        ORemoveGraph (Some (GView 3)); OContains (pat_of (1, 3, 5)) (CQuad (Some (GId 3))) false;
+                        OTriples pall CTriple (Some (GForeign 2 [(7, 3, 7)])) false;
+                        ORemove pall (CQuad (Some (GForeign 1 [(7, 3, 7)])))] |} in
+  kf c = 0 /\ length (model_obs c) = 12%nat
   /\ exists s, nth_error (model_obs c) 3 = Some (RNone, s) /\ o_graphs s = [1; 0; 3; 2]
                /\ o_views s = [(0, []); (1, [(1, 3, 5)]); (3, [(1, 3, 5); (2, 3, 1)]); (2, [])].
 Proof.
-  cbv zeta. split; [reflexivity|]. split; [vm_compute; reflexivity|]. split; [vm_compute; reflexivity|].
+  cbv zeta. split; [vm_compute; reflexivity|]. split; [vm_compute; reflexivity|].
   eexists. vm_compute. split; [reflexivity|]. split; reflexivity.
 Qed.
